@@ -1,7 +1,7 @@
 SPECIFICATION Spec
 CONSTANTS
   Deviations <- AllDevs
-  Families <- F_binary
+  Families <- G_b
   Wide = FALSE
 INVARIANT AtenWellFormed
 INVARIANT DesignOK
